@@ -28,8 +28,11 @@ type Sched struct {
 	Waiting []*Parked
 	Pass    map[string]bool // sites that never park (external API calls made by the harness)
 	Rng     *rand.Rand
-	Free    bool // free-running: never park
+	Free    bool   // free-running: never park
+	ArmOp   string // "" | "send": the next channel operation of that kind (not on the root goroutine) parks inside the operation
+	RootGid int64
 	// counters
+	Probes     int
 	Releases   int
 	Diverged   int // steering requests that found no matching goroutine
 	RacyPoints int // releases made while >= 2 goroutines were parked
@@ -66,6 +69,127 @@ func (s *Sched) Point(site string, args ...any) {
 	p := &Parked{Site: site, Args: args, Gid: gid(), rel: make(chan struct{})}
 	s.arrive <- p
 	<-p.rel
+}
+
+// InOp is called by the instrumented channel inside an operation (after its
+// begin event was logged).  If a probe is armed for that kind of operation the
+// calling goroutine parks here, i.e. while it holds whatever lock the library
+// holds around the operation.
+func (s *Sched) InOp(kind, ch string) {
+	if s.ArmOp != kind || s.Free || gid() == s.RootGid {
+		return
+	}
+	s.ArmOp = ""
+	p := &Parked{Site: "vchan.in" + kind, Args: []any{ch}, Gid: gid(), rel: make(chan struct{})}
+	s.arrive <- p
+	<-p.rel
+}
+
+// SettleExt is the extended quiescence used while a goroutine is parked inside
+// a channel operation (possibly holding the library's mutex): it polls a
+// consistent stack snapshot until every other goroutine of the bubble is either
+// durably blocked or waiting for a sync.Mutex, then collects new arrivals.
+// (Mutex waits are not durable, so synctest.Wait cannot be used here.)
+func (s *Sched) SettleExt() {
+	for i := 0; i < 200000; i++ {
+		if allWaiting() {
+			break
+		}
+		runtime.Gosched()
+	}
+	for {
+		select {
+		case p := <-s.arrive:
+			s.Waiting = append(s.Waiting, p)
+		default:
+			return
+		}
+	}
+}
+
+func allWaiting() bool {
+	buf := make([]byte, 1<<20)
+	buf = buf[:runtime.Stack(buf, true)]
+	for _, blk := range bytes.Split(buf, []byte("\n\n")) {
+		first, _, _ := bytes.Cut(blk, []byte("\n"))
+		if !bytes.Contains(first, []byte("synctest bubble")) || bytes.Contains(first, []byte("[running")) {
+			continue
+		}
+		if bytes.Contains(first, []byte("(durable)")) || bytes.Contains(first, []byte("sync.Mutex.Lock")) ||
+			bytes.Contains(first, []byte("sync.RWMutex")) {
+			continue
+		}
+		return false
+	}
+	return true
+}
+
+// Find returns the index of the first parked goroutine at site, or -1.
+func (s *Sched) Find(site string) int {
+	for i, p := range s.Waiting {
+		if p.Site == site {
+			return i
+		}
+	}
+	return -1
+}
+
+// ReleaseIdxExt releases the i-th parked goroutine and settles with SettleExt.
+func (s *Sched) ReleaseIdxExt(i int) {
+	p := s.Waiting[i]
+	s.Waiting = append(s.Waiting[:i:i], s.Waiting[i+1:]...)
+	s.Releases++
+	close(p.rel)
+	s.SettleExt()
+}
+
+// Probe arms an in-operation park for kind, runs the schedule (seeded-random
+// releases) until some goroutine is parked inside such an operation, then, with
+// it parked there, releases every other parked goroutine and runs the external
+// calls in extra (each on its own goroutine), waiting for extended quiescence
+// after each; finally the operation is allowed to finish.  Any channel
+// operation begun by another goroutine meanwhile is in the trace between the
+// begin and end events of the parked operation.
+func (s *Sched) Probe(kind string, extra []func()) bool {
+	site := "vchan.in" + kind
+	s.ArmOp = kind
+	s.Settle()
+	for n := 0; s.Find(site) < 0 && n < 300; n++ {
+		if !s.ReleaseRandom() {
+			break
+		}
+	}
+	s.ArmOp = ""
+	i := s.Find(site)
+	if i < 0 {
+		return false
+	}
+	s.Probes++
+	in := s.Waiting[i]
+	for n := 0; n < 100; n++ {
+		j := -1
+		for k, p := range s.Waiting {
+			if p != in {
+				j = k
+				break
+			}
+		}
+		if j < 0 {
+			break
+		}
+		s.ReleaseIdxExt(j)
+	}
+	for _, f := range extra {
+		go f()
+		s.SettleExt()
+	}
+	for k, p := range s.Waiting {
+		if p == in {
+			s.ReleaseIdx(k)
+			break
+		}
+	}
+	return true
 }
 
 // Settle waits until every goroutine of the bubble is durably blocked and
